@@ -294,12 +294,20 @@ fn lexi_0_to_x(x: &str, incl: bool) -> Result<String> {
             return Ok(format!("[0-{}][0-9]*", x0 - 1));
         }
 
+        // The digits after the first one are optional: a literal that stops here
+        // is a proper prefix of `x` (which has no trailing zeros), hence below it.
+        let rest_rx = lexi_0_to_x(x_rest, incl)?;
+        let rest_rx = if rest_rx.is_empty() {
+            rest_rx
+        } else {
+            format!("({rest_rx})?")
+        };
         let mut parts = vec![format!(
             "{}{}",
             x.chars()
                 .next()
                 .ok_or_else(|| anyhow!("String x is unexpectedly empty"))?,
-            lexi_0_to_x(x_rest, incl)?
+            rest_rx
         )];
         if x0 > 0 {
             parts.push(format!("[0-{}][0-9]*", x0 - 1));
@@ -336,12 +344,19 @@ fn lexi_range(ld: &str, rd: &str, ld_incl: bool, rd_incl: bool) -> Result<String
         if l0 == r0 {
             let ld_rest = &ld[1..];
             let rd_rest = &rd[1..];
+            let rest_rx = lexi_range(ld_rest, rd_rest, ld_incl, rd_incl)?;
+            // a literal that stops after the common digit equals `ld` when the rest of `ld` is all zeros
+            let rest_rx = if ld_incl && ld_rest.trim_end_matches('0').is_empty() {
+                format!("({rest_rx})?")
+            } else {
+                rest_rx
+            };
             Ok(format!(
                 "{}{}",
                 ld.chars()
                     .next()
                     .ok_or_else(|| anyhow!("ld is unexpectedly empty"))?,
-                lexi_range(ld_rest, rd_rest, ld_incl, rd_incl)?
+                rest_rx
             ))
         } else {
             if l0 >= r0 {
@@ -360,12 +375,19 @@ fn lexi_range(ld: &str, rd: &str, ld_incl: bool, rd_incl: bool) -> Result<String
             }
             let rd_rest = rd[1..].trim_end_matches('0');
             if !rd_rest.is_empty() || rd_incl {
+                // a literal that stops after this digit is below `rd` when `rd` has more digits
+                let rest_rx = lexi_0_to_x(rd_rest, rd_incl)?;
+                let rest_rx = if rest_rx.is_empty() {
+                    rest_rx
+                } else {
+                    format!("({rest_rx})?")
+                };
                 parts.push(format!(
                     "{}{}",
                     rd.chars()
                         .next()
                         .ok_or_else(|| anyhow!("rd is unexpectedly empty"))?,
-                    lexi_0_to_x(rd_rest, rd_incl)?
+                    rest_rx
                 ));
             }
             Ok(mk_or(parts))
